@@ -2,6 +2,7 @@ package gen
 
 import (
 	"strings"
+	"unicode"
 
 	"pgregory.net/rapid"
 )
@@ -20,13 +21,67 @@ func (r RapidChooser) Choose(label string, n int) int {
 // Small implements Chooser.
 func (RapidChooser) Small() bool { return false }
 
+// WideLetters holds one letter from every block of 64 code points of the Basic Multilingual Plane
+// that has one (so every UTF-8 lead byte and a spread of continuation bytes occurs), plus a few
+// letters beyond it.
+var WideLetters = func() []rune {
+	var out []rune
+	for base := rune(0x80); base < 0x10000; base += 64 {
+		for r := base; r < base+64; r++ {
+			if unicode.IsLetter(r) {
+				out = append(out, r)
+				break
+			}
+		}
+	}
+	return append(out, 0x10400, 0x1D400, 0x20000, 0x1E900)
+}()
+
+// LeadLetters holds one letter for every UTF-8 lead byte that starts a letter at all: slips that
+// treat bytes as characters depend on the lead byte, and some lead bytes cover a single script.
+var LeadLetters = func() []rune {
+	seen := map[byte]bool{}
+	var out []rune
+	for r := rune(0x80); r < 0x30000; r++ {
+		if unicode.IsLetter(r) {
+			if b := string(r)[0]; !seen[b] {
+				seen[b] = true
+				out = append(out, r)
+			}
+		}
+	}
+	return out
+}()
+
+// WideLetter draws a non-ASCII letter: half the time by lead byte, half the time by block.
+func WideLetter(t *rapid.T, label string) rune {
+	if rapid.Bool().Draw(t, label+"_bylead") {
+		return rapid.SampledFrom(LeadLetters).Draw(t, label+"_lead")
+	}
+	return rapid.SampledFrom(WideLetters).Draw(t, label+"_block")
+}
+
+// WideRunes: printable and odd non-ASCII runes that are not letters (signs whose UTF-8 bytes look like
+// letters in Latin-1 and the other way round, spaces and line separators that are not '\n', marks).
+var WideRunes = []rune{0xD7, 0xF7, 0xA0, 0x85, 0x2028, 0x2029, 0xFEFF, 0x301, 0x200B, 0x3000, 0x5BE, 0x5F3, 0x2013, 0x20AC, 0x1F600, 0xFFFD, 0x7F, 0x1}
+
 var identRunes = []rune("abcdefghijklmnopqrstuvwxyzABCDEFGHIJKLMNOPQRSTUVWXYZ___éßλ中Ж")
 
 // Ident draws an identifier: letters (also non-ASCII) and '_' only — digits are not
 // identifier characters in spok. The bare keyword "task" is never produced.
 func Ident(t *rapid.T, label string) string {
 	s := string(rapid.SliceOfN(rapid.SampledFrom(identRunes), 1, 8).Draw(t, label))
+	if rapid.IntRange(0, 5).Draw(t, label+"_wide") == 0 {
+		// letters of any script: one position of the name is replaced
+		r := []rune(s)
+		r[rapid.IntRange(0, len(r)-1).Draw(t, label+"_wide_pos")] = WideLetter(t, label+"_wide_letter")
+		s = string(r)
+	}
 	if rapid.IntRange(0, 19).Draw(t, label+"_taskprefix") == 0 {
+		if rapid.Bool().Draw(t, label+"_taskprefix_wide") {
+			// the keyword-like prefix directly followed by a letter of any script
+			s = string(WideLetter(t, label+"_taskprefix_letter")) + s
+		}
 		s = "task" + s
 	}
 	if s == "task" {
@@ -43,7 +98,22 @@ func StringText(t *rapid.T, label string) string {
 	if rapid.IntRange(0, 19).Draw(t, label+"_long") == 0 {
 		max = 90 // sizes are not narrowed: long paths and globs exist
 	}
-	return string(rapid.SliceOfN(rapid.SampledFrom(stringRunes), 0, max).Draw(t, label))
+	out := rapid.SliceOfN(rapid.SampledFrom(stringRunes), 0, max).Draw(t, label)
+	return string(widen(t, label, out))
+}
+
+// widen replaces, once in a while, one rune by a letter or sign from far outside ASCII.
+func widen(t *rapid.T, label string, r []rune) []rune {
+	if len(r) == 0 || rapid.IntRange(0, 7).Draw(t, label+"_wide") != 0 {
+		return r
+	}
+	pos := rapid.IntRange(0, len(r)-1).Draw(t, label+"_wide_pos")
+	if rapid.Bool().Draw(t, label+"_wide_sign") {
+		r[pos] = rapid.SampledFrom(WideRunes).Draw(t, label+"_wide_rune")
+	} else {
+		r[pos] = WideLetter(t, label+"_wide_letter")
+	}
+	return r
 }
 
 var commentRunes = []rune("abcxyzABC019     \t#{}:=->,()\"*./$'éλ中task%%")
@@ -62,7 +132,7 @@ func CommentText(t *rapid.T, label string) string {
 	if rapid.IntRange(0, 14).Draw(t, label+"_long") == 0 {
 		max = 120
 	}
-	return string(rapid.SliceOfN(rapid.SampledFrom(commentRunes), 1, max).Draw(t, label))
+	return string(widen(t, label, rapid.SliceOfN(rapid.SampledFrom(commentRunes), 1, max).Draw(t, label)))
 }
 
 var cmdFirst = []rune("abcdefghijklmnopqrstuvwxyzABCDEFGHIJKLMNOPQRSTUVWXYZ")
